@@ -12,7 +12,7 @@ from core import Case
 from props import _sg
 
 PID = "C20"
-LEAN_MODULES = ["KrroodVerif.Props.C20"]
+LEAN_MODULES = ["KrroodVerif.Props.C20", "KrroodVerif.Props.C20Run"]
 THEOREMS = [
     "KrroodVerif.SG.C20_registry_bounded",
     "KrroodVerif.SG.C20_registry_bounded_run",
@@ -21,6 +21,18 @@ THEOREMS = [
     "KrroodVerif.SG.C20_cex_query_cache",
     "KrroodVerif.SG.C20_cex_index_entries",
     "KrroodVerif.SG.C20_role_witness",
+    # run level (Props/C20Run.lean, Lemmas/HeapReach.lean)
+    "KrroodVerif.SG.reach_sound",
+    "KrroodVerif.SG.reach_complete",
+    "KrroodVerif.SG.Heap.WF.reach_iff",
+    "KrroodVerif.SG.collect_garbage_nil",
+    "KrroodVerif.SG.C20_wf_run",
+    "KrroodVerif.SG.C20_no_garbage_after_collect_run",
+    "KrroodVerif.SG.C20_no_garbage_run_partial",
+    "KrroodVerif.SG.C20_cex_container_overwrite",
+    "KrroodVerif.SG.C20_drop_all_clean",
+    "KrroodVerif.SG.C20_harness_schema_closed",
+    "KrroodVerif.SG.C20_no_garbage_run_harness",
 ]
 MODEL_FUNCTION = ("SG.step / Heap.collect / Heap.roots / SG.sweep / SG.removeNode (Model/SymbolGraph.lean), looped by "
                   "Drive/C20.lean under the LIFO allocator")
